@@ -10,13 +10,15 @@ EXTENDS TagValue, Json
 
 CONSTANTS Mode,        \* "strings" | "values"
           Alpha,       \* code points
-          MaxPieces
+          MaxPieces,
+          FewWords     \* TRUE: only the words whose letters are not in any alphabet
 
 SeqsUpTo(S, n) == UNION {[1..m -> S] : m \in 0..n}
 RECURSIVE Flatten(_)
 Flatten(ps) == IF ps = <<>> THEN <<>> ELSE Head(ps) \o Flatten(Tail(ps))
 
-Words == {Wtrue, Wnull, WNaN, WInfinity, Wnan, Winf, <<QT, 97, QT>>, <<LB, 49, RB>>}
+Words == IF FewWords THEN {Wtrue, Wnull, WNaN, WInfinity}
+         ELSE {Wtrue, Wnull, WNaN, WInfinity, Wnan, Winf, <<QT, 97, QT>>, <<LB, 49, RB>>}
 Pieces == {<<c>> : c \in Alpha} \cup Words
 Texts == {Flatten(ps) : ps \in SeqsUpTo(Pieces, MaxPieces)}
 
